@@ -55,7 +55,7 @@ def oracle_utc(tz, naive):
     * one reading: that instant;
     * repeated (ambiguous) local hour: the daylight-saving side when exactly one reading is flagged so and it is the
       earlier instant, otherwise any of its readings (the statement only says repeated hours are merged, never dropped);
-    * skipped (non-existent) local hour: any instant from the transition T up to T + (position inside the gap) + 1 h —
+    * skipped (non-existent) local hour: any instant from T - (gap - 1 h) up to T + (position inside the gap) + 1 h —
       pandas moves such a stamp to the next whole hour, which for gaps that are not whole hours (Lord Howe, Chatham)
       or longer than an hour (Apia 2011-12-30) is not the transition instant itself."""
     r = readings(tz, naive)
@@ -68,7 +68,11 @@ def oracle_utc(tz, naive):
         old, new = ti[i - 1][0], ti[i][0]
         if tt[i] + old <= naive < tt[i] + new:
             inside = naive - (tt[i] + old)
-            return "window", (tt[i], tt[i] + inside + HOUR)
+            gap = new - old
+            # multi-hour gaps (zone changes: Bahia_Banderas 2010, Casey, Troll ...): pandas merges the skipped hours into
+            # the hours just *before* the transition as well; nothing is dropped
+            back = max(gap - HOUR, timedelta(0))
+            return "window", (tt[i] - back, tt[i] + inside + HOUR)
     raise AssertionError(f"no reading for {naive} in {tz}")
 
 
@@ -92,7 +96,23 @@ def check_placement(ctx, tz, start, n, xs, cells, lab):
                         f"{kind} {acc} not among {sorted(map(str, cells))}")
             return
         choices.append(cand)
-    combos = list(itertools.islice(itertools.product(*choices), 128))
+    multi = [i for i, c in enumerate(choices) if len(c) > 1]
+    if len(multi) > 6:
+        # a long run of skipped hours (a skipped calendar day inside a long series): the assignment search is not
+        # attempted; every cell that no skipped hour can reach must still hold exactly its own local hours
+        reach = set(t for i in multi for t in choices[i])
+        exact = {}
+        for i, c in enumerate(choices):
+            if len(c) == 1:
+                exact[c[0]] = exact.get(c[0], 0) + xs[i]
+        ctx.require(set(cells) <= set(exact) | reach, f"{lab}: UTC stamps = local stamps shifted by the offset in force (nothing invented)",
+                    f"{sorted(map(str, set(cells) - set(exact) - reach))[:4]}")
+        for t in sorted(set(exact) - reach):
+            ctx.require(t in cells, f"{lab}: local hour present at its UTC instant", str(t))
+            if t in cells:
+                ctx.eq(cells[t], exact[t], f"{lab}: each UTC hour holds exactly the local hours that map to it (merged, never dropped)")
+        return
+    combos = list(itertools.islice(itertools.product(*choices), 4096))
     good = []
     for combo in combos:
         exp = {}
